@@ -104,7 +104,7 @@ def _pipe_fit_post(A, r):
     return And(*conds)
 
 
-contract(f"{PIPE}::TransformedTargetForecaster.fit", "C09", cases=PIPE_CASES, inputs=_pipe_fit_inputs,
+contract(f"{PIPE}::TransformedTargetForecaster.fit", "C09,C04", cases=PIPE_CASES, inputs=_pipe_fit_inputs,
          ensures=[("transformers-fitted-in-order-forecaster-on-fully-transformed-series", _pipe_fit_post)])
 
 
